@@ -300,3 +300,23 @@ def bool_literal_callback(value):
     t = celpy.CELParser.ambiguous_literals(lark.Token("IDENT", value))
     want = "BOOL_LIT" if value in ("true", "false") else "IDENT"
     return (t.type == want and t.value == value), f"IDENT {value!r} -> {t.type} {t.value!r}, expected {want}"
+
+
+def layout_sequence(texts):
+    """several sources parsed one after the other by one parser object: each must get the tree of ITS OWN text (sources that
+    differ only in layout inside a string literal or around a comment are different expressions)"""
+    import celpy
+    celpy.CELParser.CEL_PARSER = None
+    parser = celpy.CELParser()
+    for text in texts:
+        try:
+            ref = ref_parse(text)
+        except RefSyntaxError:
+            ref = None
+        try:
+            got = canon(parser.parse(text))
+        except celpy.CELParseError:
+            got = None
+        if ref is not None and got != ref:
+            return False, f"after parsing {texts[:texts.index(text)]!r}, {text!r} parses to {got!r}; its own tree is {ref!r}"
+    return True, "ok"
